@@ -346,6 +346,9 @@ def mk_enum(ctx, variants):
     return it
 
 
+STRUCT0 = {"n0": "named", "t0": "tuple"}
+
+
 def has_lt_or_ty(g):
     return any(p["k"] in ("lt", "ty") for p in g["params"])
 
@@ -354,6 +357,11 @@ STRUCT_SHAPES = {"unit": ("unit", 0), "t1": ("tuple", 1), "t2": ("tuple", 2), "n
 
 
 def struct_of(ctx, shape, cls, distinct=False):
+    if shape in STRUCT0:
+        # `struct S {}` / `struct S();`
+        if has_lt_or_ty(ctx.g):
+            return None
+        return mk_struct(ctx, STRUCT0[shape], [])
     fk, n = STRUCT_SHAPES[shape]
     if n == 0 and has_lt_or_ty(ctx.g):
         return None
@@ -361,7 +369,18 @@ def struct_of(ctx, shape, cls, distinct=False):
 
 
 def enum_of(ctx, shape, cls):
-    """eu: unit variants only; e1: unit + single-field variants; em: tuple1, named2, unit"""
+    """eu: unit variants only; e1: unit + single-field variants; em: tuple1, named2, unit; et: tuple1, tuple2, unit;
+    en: tuple1, named2 (no unit variant); es: one tuple1 variant; esu: one unit variant; e0: no variant at all"""
+    if shape == "e0":
+        if has_lt_or_ty(ctx.g):
+            return None
+        return mk_enum(ctx, [])
+    if shape == "esu":
+        if has_lt_or_ty(ctx.g):
+            return None
+        return mk_enum(ctx, [("unit", [])])
+    if shape == "es":
+        return mk_enum(ctx, [("tuple", pick_types(ctx, 1, cls))])
     if shape == "eu":
         if has_lt_or_ty(ctx.g):
             return None
@@ -372,6 +391,8 @@ def enum_of(ctx, shape, cls):
     ts = pick_types(ctx, 3, cls, distinct=True)
     if shape == "et":
         return mk_enum(ctx, [("tuple", [ts[0]]), ("tuple", [ts[1], ts[2]]), ("unit", [])])
+    if shape == "en":
+        return mk_enum(ctx, [("tuple", [ts[0]]), ("named", [ts[1], ts[2]])])
     return mk_enum(ctx, [("tuple", [ts[0]]), ("named", [ts[1], ts[2]]), ("unit", [])])
 
 
@@ -417,28 +438,52 @@ VARIANTS["Debug"] = [(s_, "none") for s_ in ("unit", "t1", "t2", "n1", "n2", "em
 for d in FMT_TRAITS:
     VARIANTS[d] = [("unit", "none"), ("t1", "none"), ("n1", "none"), ("eu", "none"), ("e1", "none"),
                    ("t2", "fmt"), ("n2", "fmt"), ("em", "fmt-variant"), ("t1", "fmt"), ("t1", "bound")]
+SINGLE = [("es", "none"), ("esu", "none")]
+for d in ADD + NOT:
+    VARIANTS[d] += SINGLE + [("en", "none")]
+VARIANTS["Constructor"] += [("n0", "none"), ("t0", "none")]
+VARIANTS["Debug"] += SINGLE + [("e0", "none"), ("n0", "none"), ("t0", "none"), ("en", "none"), ("e1", "none")]
+for d in FMT_TRAITS:
+    # shared (enum-level) formats: wrapping via {_variant}, wrapping with {_variant} as an argument too, default format
+    VARIANTS[d] += [("ew", "shared-wrap"), ("ew", "shared-wrap-arg"), ("ew", "shared-wrap-all-own"), ("ed", "shared-default"),
+                    ("ed", "shared-default-all"), ("es", "none"), ("e0", "none"), ("es", "shared-wrap"), ("n0", "none"),
+                    ("t0", "none"), ("ew", "bound-enum")]
+VARIANTS["Display"] += [("eu", "rename_all"), ("eu", "rename_all-variant"), ("unit", "fmt-unit"), ("esu", "none")]
 VARIANTS["Deref"] = [("t1", "none"), ("n1", "none"), ("t1", "forward"), ("n1", "forward"), ("t2", "marker"),
                      ("n2", "marker")]
+VARIANTS["Deref"] += [("t2", "ignore-other"), ("n2", "ignore-other")]
 VARIANTS["DerefMut"] = list(VARIANTS["Deref"])
 VARIANTS["Error"] = [("unit", "none"), ("t1", "none"), ("n1", "source-name"), ("n2", "source-name"), ("t2", "none"),
                      ("n2", "source-attr"), ("t1", "not-source"), ("em", "none"), ("eu", "none"), ("n1", "none")]
+VARIANTS["Error"] += [("en", "none"), ("en", "variant-ignore"), ("em", "variant-ignore"), ("en", "variant-ignore-all-but-one"),
+                      ("en", "all-ignored"), ("n2", "field-ignore"), ("em", "explicit-source"), ("en", "not-source"),
+                      ("e0", "none"), ("es", "none"), ("esu", "none"), ("en", "enum-ignore"), ("n0", "none"), ("t0", "none"),
+                      ("em", "field-ignore")]
 VARIANTS["From"] = [("unit", "none"), ("t1", "none"), ("t2", "none"), ("n1", "none"), ("n2", "none"),
                     ("t1", "forward"), ("t2", "forward"), ("n2", "forward"), ("t1", "types"), ("em", "none"),
                     ("em", "variant-forward"), ("em", "variant-from"), ("em", "variant-skip")]
-VARIANTS["FromStr"] = [("t1", "none"), ("n1", "none"), ("eu", "none")]
-VARIANTS["Index"] = [("t1", "none"), ("n1", "none"), ("t2", "marker"), ("n2", "marker")]
+VARIANTS["From"] += [("es", "none"), ("en", "none"), ("t0", "none"), ("n0", "none")]
+VARIANTS["FromStr"] = [("t1", "none"), ("n1", "none"), ("eu", "none"), ("esu", "none")]
+VARIANTS["Index"] = [("t1", "none"), ("n1", "none"), ("t2", "marker"), ("n2", "marker"), ("t2", "ignore-other"),
+                     ("n2", "ignore-other")]
 VARIANTS["IndexMut"] = list(VARIANTS["Index"])
 VARIANTS["Into"] = [("unit", "none"), ("t1", "none"), ("t2", "none"), ("n1", "none"), ("n2", "none"),
                     ("t1", "refs"), ("n2", "refs"), ("t1", "types"), ("t2", "skip"), ("n2", "field")]
+VARIANTS["Into"] += [("t0", "none"), ("n0", "none")]
 VARIANTS["IntoIterator"] = [("t1", "none"), ("n1", "none"), ("t1", "refs"), ("n1", "refs"), ("t2", "marker"),
-                            ("n2", "marker-refs")]
+                            ("n2", "marker-refs"), ("t2", "ignore-other")]
 VARIANTS["IsVariant"] = [("em", "none"), ("eu", "none"), ("em", "ignore"), ("et", "none")]
 for d in ("Unwrap", "TryUnwrap"):
     # variants with named fields are refused on purpose ("cannot unwrap anonymous records"); the documentation speaks of
     # variants "with fields (a, b, c, ...)"
     VARIANTS[d] = [("et", "none"), ("eu", "none"), ("et", "ignore"), ("et", "refs")]
+VARIANTS["IsVariant"] += SINGLE + [("em", "ignore-middle"), ("en", "none"), ("e0", "none")]
+for d in ("Unwrap", "TryUnwrap"):
+    VARIANTS[d] += SINGLE + [("et", "ignore-middle"), ("et", "refs-variant")]
 VARIANTS["TryFrom"] = [("eu", "repr"), ("eu", "repr-u8"), ("em", "repr"), ("eu", "repr-disc")]
-VARIANTS["TryInto"] = [("em", "none"), ("em", "refs"), ("em", "ignore"), ("e1", "none")]
+VARIANTS["TryFrom"] += [("esu", "repr"), ("es", "repr"), ("en", "repr")]
+VARIANTS["TryInto"] = [("em", "none"), ("em", "refs"), ("em", "ignore"), ("e1", "none"), ("es", "none"), ("esu", "none"),
+                       ("em", "ignore-nonunit"), ("en", "none"), ("es", "refs")]
 
 ALL_DERIVES = list(VARIANTS)
 FLAVOURS = ["plain", "deprecated", "uninhabited"]
@@ -461,6 +506,8 @@ def build(derive, shape, gname, naming, attr, flavour, rng):
                 return None
             it.fields[0].keep_attrs.append("#[deprecated]")
         else:
+            if not it.variants:
+                return None
             it.variants[0].keep_attrs.append("#[deprecated]")
     elif flavour == "uninhabited":
         if not ctx.unin_done:
@@ -493,7 +540,7 @@ def group_of(d):
 
 
 def any_of(ctx, shape, cls, distinct=False):
-    if shape in STRUCT_SHAPES:
+    if shape in STRUCT_SHAPES or shape in STRUCT0:
         return struct_of(ctx, shape, cls, distinct)
     return enum_of(ctx, shape, cls)
 
@@ -632,6 +679,7 @@ def fmt_args_for(it_fields, spec, named):
 
 def b_fmt_common(c, ctx, trait, an, cls):
     g = ctx.g
+
     spec = FMT_SPEC[trait]
     tys = [p["n"] for p in g["params"] if p["k"] == "ty"]
     if c.attr == "none":
@@ -660,6 +708,50 @@ def b_fmt_common(c, ctx, trait, an, cls):
             return None
         it = struct_of(ctx, c.shape, cls)
         it.attrs.append("#[%s(bound(%s: Clone))]" % (an, tys[0]))
+    elif c.attr in ("shared-wrap", "shared-wrap-arg", "shared-wrap-all-own", "bound-enum") and c.shape in ("ew", "es"):
+        # enum-level format wrapping each variant's own (given or inferred) output through {_variant}
+        if c.shape == "es":
+            it = enum_of(ctx, "es", cls)
+            if tys and not ctx.unin:
+                it.variants[0].fields[0].ty = tys[0] if len(tys) == 1 and not [p for p in g["params"] if p["k"] == "lt"] \
+                    else it.variants[0].fields[0].ty
+        else:
+            ts = pick_types(ctx, 3, cls)
+            if tys and ts[0] != VOID and set(free_names(" ".join(ts[1:]), g)) >= {p["n"] for p in g["params"] if p["k"] in ("lt", "ty")}:
+                ts[0] = tys[0]          # the delegating variant holds a bare type parameter
+            it = mk_enum(ctx, [("tuple", [ts[0]]), ("named", [ts[1], ts[2]]), ("unit", [])])
+            v = it.variants[1]
+            v.attrs.append("#[%s(%s)]" % (an, fmt_args_for(v.fields, spec, True)))
+            it.variants[2].attrs.append('#[%s("unit")]' % an)
+            if c.attr == "shared-wrap-all-own":
+                it.variants[0].attrs.append('#[%s("{_0%s}")]' % (an, spec))
+        if c.attr == "bound-enum":
+            if not tys:
+                return None
+            it.attrs.append("#[%s(bound(%s: Clone))]" % (an, tys[0]))
+        elif c.attr == "shared-wrap-arg":
+            it.attrs.append('#[%s("Variant: {_variant} & {}", _variant)]' % an)
+        else:
+            it.attrs.append('#[%s("Variant: {_variant}")]' % an)
+    elif c.attr in ("shared-default", "shared-default-all") and c.shape == "ed":
+        # enum-level format without {_variant}: the default for variants that have none of their own
+        ts = pick_types(ctx, 3, cls)
+        it = mk_enum(ctx, [("tuple", [ts[0]]), ("tuple", [ts[1]]), ("tuple", [ts[2]])])
+        if c.attr == "shared-default":
+            it.variants[1].attrs.append('#[%s("own {_0%s}")]' % (an, spec))
+        it.attrs.append('#[%s("Default: {_0%s} & {%s}", _0)]' % (an, spec, spec))
+    elif c.attr in ("rename_all", "rename_all-variant"):
+        it = enum_of(ctx, "eu", cls)
+        if it is None:
+            return None
+        it.attrs.append('#[%s(rename_all = "kebab-case")]' % an)
+        if c.attr == "rename_all-variant":
+            it.variants[1].attrs.append('#[%s(rename_all = "SCREAMING_SNAKE_CASE")]' % an)
+    elif c.attr == "fmt-unit":
+        it = struct_of(ctx, "unit", cls)
+        if it is None:
+            return None
+        it.attrs.append('#[%s("just a unit")]' % an)
     else:
         return None
     if it is None:
@@ -698,6 +790,11 @@ def b_deref(c, ctx):
         for a in ans:
             it.attrs.append("#[%s(forward)]" % a)
         c.families = ["FDeref %s (Some %s)" % (tr, u_(t, g))]
+    elif c.attr == "ignore-other":
+        it = struct_of(ctx, c.shape, "any")
+        for a in ans:
+            it.fields[0].attrs.append("#[%s(ignore)]" % a)
+        c.families = ["FDeref %s None" % tr]
     else:
         it = struct_of(ctx, c.shape, "any")
         for a in ans:
@@ -748,16 +845,56 @@ def b_error(c, ctx):
     elif c.shape == "n2":
         s_ = src_ty()
         it = mk_struct(ctx, "named", [s_, rest_ty(s_)])
-        if c.attr == "source-name":
+        if c.attr in ("source-name", "field-ignore"):
             it.fields[0].name = "source"
         else:
             it.fields[0].attrs.append("#[error(source)]")
     elif c.shape == "t2":
         it = mk_struct(ctx, "tuple", ["i32", rest_ty("")])
-    else:
+    elif c.shape in ("n0", "t0", "e0", "esu"):
+        it = any_of(ctx, c.shape, "any")
+    elif c.shape == "es":
+        it = mk_enum(ctx, [("tuple", [(tys[0] if tys and not lts and len(tys) == 1 else None) or
+                                      (src_ty() if not (lts or tys) else None) or uni(g)])])
+        if it.variants[0].fields[0].ty == uni(g) and (lts or tys):
+            it.variants[0].fields[0].attrs.append("#[error(not(source))]")
+    elif c.shape in ("en", "em"):
+        # V0(src), V1 { source: src, b }, [V2(src) | unit]
         s_ = src_ty()
-        it = mk_enum(ctx, [("tuple", [s_]), ("named", [s_, rest_ty(s_)]), ("unit", [])])
+        vs = [("tuple", [s_]), ("named", [s_, rest_ty(s_)])]
+        if c.shape == "em":
+            vs.append(("unit", []))
+        elif c.attr.startswith("variant-ignore") or c.attr == "all-ignored":
+            vs.append(("tuple", [src_ty()]))
+        it = mk_enum(ctx, vs)
         it.variants[1].fields[0].name = "source"
+        ig = "#[error(ignore)]"
+        if c.attr == "variant-ignore":
+            # one ignored variant, every other variant has a source
+            it.variants[ctx.rng.choice([0, 1, 2]) if c.shape == "en" else ctx.rng.choice([0, 1])].attrs.append(ig)
+        elif c.attr == "variant-ignore-all-but-one":
+            keep = ctx.rng.randrange(3)
+            for i, v in enumerate(it.variants):
+                if i != keep:
+                    v.attrs.append(ig)
+        elif c.attr == "all-ignored":
+            for v in it.variants:
+                v.attrs.append(ig)
+        elif c.attr == "enum-ignore":
+            it.attrs.append(ig)
+        elif c.attr == "explicit-source":
+            it.variants[1].fields[0].name = ctx.nm["f"][0]
+            it.variants[1].fields[0].attrs.append("#[error(source)]")
+        elif c.attr == "not-source":
+            it.variants[0].fields[0].attrs.append("#[error(not(source))]")
+        elif c.attr == "field-ignore":
+            it.variants[1].fields[0].attrs.append(ig)
+        elif c.attr != "none":
+            return None
+    else:
+        return None
+    if c.shape == "n2" and c.attr == "field-ignore":
+        it.fields[0].attrs = ["#[error(ignore)]"]
     if it is None:
         return None
     c.std_derives = ["Debug"]
@@ -768,6 +905,19 @@ def b_error(c, ctx):
 
 def b_from(c, ctx):
     g = ctx.g
+    if c.shape in STRUCT0:
+        it = struct_of(ctx, c.shape, "any")
+        c.families = ["FFrom (TTuple RNo [])"]
+        return it
+    if c.shape in ("es", "en"):
+        for _ in range(12):
+            it = enum_of(ctx, c.shape, "any")
+            if it.variants[0].fields[0].ty not in [p["n"] for p in g["params"]] or c.shape == "es":
+                break
+        else:
+            return None
+        c.families = ["FFrom (TTuple RNo %s)" % c_list(u_(f.ty, g) for f in v.fields) for v in it.variants]
+        return it
     if c.shape in STRUCT_SHAPES:
         if c.attr == "types":
             if has_lt_or_ty(g):
@@ -820,9 +970,9 @@ def b_from(c, ctx):
 
 
 def b_fromstr(c, ctx):
-    if c.shape == "eu":
+    if c.shape in ("eu", "esu"):
         c.families = ["FFromStrEnum"]
-        return enum_of(ctx, "eu", "fromstr")
+        return enum_of(ctx, c.shape, "fromstr")
     c.families = ["FFromStrStruct"]
     return struct_of(ctx, c.shape, "fromstr")
 
@@ -843,7 +993,10 @@ def b_index(c, ctx):
         need = {p["n"] for p in g["params"] if p["k"] in ("lt", "ty")} - set(free_names(t, g))
         it = mk_struct(ctx, fk, [t, uni(g) if need else "bool"])
         for a in ans:
-            it.fields[0].attrs.append("#[%s]" % a)
+            if c.attr == "ignore-other":
+                it.fields[1].attrs.append("#[%s(ignore)]" % a)
+            else:
+                it.fields[0].attrs.append("#[%s]" % a)
     c.families = ["FIndex %s %s" % (tr, u_(t, g))]
     return it
 
@@ -864,6 +1017,9 @@ def orphan_safe(ts, g):
 
 def b_into(c, ctx):
     g = ctx.g
+    if c.shape in STRUCT0:
+        c.families = ["FInto SOwned []"]
+        return struct_of(ctx, c.shape, "any")
     for _ in range(8):
         it = struct_of(ctx, c.shape, "any")
         if it is None:
@@ -914,6 +1070,8 @@ def b_intoiterator(c, ctx):
     if c.attr == "refs":
         it.attrs.append("#[into_iterator(owned, ref, ref_mut)]")
         sels = ["owned", "ref", "ref_mut"]
+    elif c.attr == "ignore-other":
+        it.fields[1].attrs.append("#[into_iterator(ignore)]")
     elif c.attr == "marker":
         it.fields[0].attrs.append("#[into_iterator]")
     elif c.attr == "marker-refs":
@@ -932,6 +1090,10 @@ def b_variants(c, ctx):
         it.attrs.append("#[%s(ref, ref_mut)]" % an)
     elif c.attr == "ignore":
         it.variants[0].attrs.append("#[%s(ignore)]" % an)
+    elif c.attr == "ignore-middle":
+        it.variants[1].attrs.append("#[%s(ignore)]" % an)
+    elif c.attr == "refs-variant":
+        it.variants[0].attrs.append("#[%s(ref, ref_mut)]" % an)
     c.families = ["FInherent"]
     return it
 
@@ -955,6 +1117,8 @@ def b_tryinto(c, ctx):
     g = ctx.g
     for _ in range(12):
         it = enum_of(ctx, c.shape, "any")
+        if it is None:
+            return None
         if c.shape == "e1":
             # two single-field variants: their types must not unify (Vec<u8> / Vec<T> would give overlapping impls)
             slots = [v.fields[0] for v in it.variants[:2]]
@@ -976,6 +1140,9 @@ def b_tryinto(c, ctx):
     if c.attr == "ignore":
         it.variants[2].attrs.append("#[try_into(ignore)]")
         vs = vs[:2]
+    if c.attr == "ignore-nonunit":
+        it.variants[0].attrs.append("#[try_into(ignore)]")
+        vs = vs[1:]
     groups = []
     for v in vs:
         ts = [f.ty for f in v.fields]
